@@ -462,86 +462,85 @@ def probe_hab_ecc(sec_tree, keys_tree, hdr_size):
         if any(f is None for f in fields):
             return None
 
-        # ---- parse: positions by differential probing on the raw bytes
-        class PC:
-            ECC_KEY_TYPE = {"a": 0x4B}
-
-            def __init__(self, *a):
-                self.a = a
-
-        def prs(data):
-            return parse_fn(PC, bytes(data)).a                    # (key_size, x, y, flag)
-        L = hdr_size + 8
-        zero = bytearray(L + 300)
-        curve_idx = []
-        for j in range(L):
-            dd = bytearray(zero)
-            dd[j] = 0x4B
+        def parse_part():
             try:
-                prs(dd)
-                curve_idx.append(j)
-            except _Err:
-                pass
-        if len(curve_idx) != 1:
-            return None
-        base = bytearray(zero)
-        base[curve_idx[0]] = 0x4B
-        if prs(base) != (0, 0, 0, 0):
-            return None
-        flag_idx, ks_idx = [], []
-        for j in range(L):
-            if j == curve_idx[0]:
-                continue
-            dd = bytearray(base)
-            dd[j] = 1
-            ks, _, _, fl = prs(dd)
-            if fl == 1:
-                flag_idx.append(j)
-            if ks:
-                ks_idx.append((j, _log2_exact(ks)))
-        if len(flag_idx) != 1 or not ks_idx or any(s == BAD for _, s in ks_idx):
-            return None
+                # ---- parse: positions by differential probing on the raw bytes
+                class PC:
+                    ECC_KEY_TYPE = {"a": 0x4B}
 
-        def with_ks(ks):
-            dd = bytearray(base)
-            for j, s in ks_idx:
-                dd[j] = (ks >> s) & 0xFF
-            return dd
-        p_cs, p_off = {}, set()
-        for ks in list(range(0, 1100)) + [4095, 4096, 65535 // 32]:
-            dd = with_ks(ks)
-            if sum(dd[j] << s for j, s in ks_idx) != ks:
-                continue
-            tail = len(dd) - L
-            dd[L:] = b"\xFF" * tail
-            k2, x, y, _ = prs(dd)
-            if k2 != ks:
-                return None
-            p_cs[ks] = (x.bit_length() + 7) // 8
-            if p_cs[ks] * 2 <= tail and y != x:
-                return None
-            if p_cs[ks]:
-                for off in range(max(L - 4, 0), L + 8):
-                    if off in (curve_idx[0], flag_idx[0]) or off in [j for j, _ in ks_idx]:
-                        continue
-                    d2 = with_ks(ks)
-                    d2[off] = 1
-                    if prs(d2)[1]:
-                        p_off.add(off)
-                        break
-        pfit = [(a, dv) for dv in (8,) for a in range(dv) if all(v == (ks + a) // dv for ks, v in p_cs.items() if (ks + 7) // 8 * 2 <= 300)]
-        if not pfit or len(p_off) != 1:
-            return None
-        # full check: parse(export(item)) gives the item back for the three curves
-        for ks in (256, 384, 521):
-            for fl in (0, 0x80):
-                x, y = (1 << (ks - 1)) | 5, 7
-                got = prs(exp_fn(build(ks, x, y, fl, 0x4B)))
-                if got != (ks, x, y, fl):
+                    def __init__(self, *a):
+                        self.a = a
+
+                def prs(data):
+                    return parse_fn(PC, bytes(data)).a                    # (key_size, x, y, flag)
+                L = hdr_size + 8
+                zero = bytearray(L + 300)
+                curve_idx = []
+                for j in range(L):
+                    dd = bytearray(zero)
+                    dd[j] = 0x4B
+                    try:
+                        prs(dd)
+                        curve_idx.append(j)
+                    except _Err:
+                        pass
+                if len(curve_idx) != 1:
                     return None
-        return {"export_fields": fields, "coord_add": add, "coord_div": div, "len_extra": 8, "curve_ranges": ranges,
-                "parse_flag_idx": flag_idx[0], "parse_curve_idx": curve_idx[0], "parse_bits_idx": sorted(ks_idx),
-                "parse_coord_off": p_off.pop(), "parse_coord_add": pfit[0][0], "parse_coord_div": pfit[0][1]}
+                base = bytearray(zero)
+                base[curve_idx[0]] = 0x4B
+                if prs(base) != (0, 0, 0, 0):
+                    return None
+                flag_idx, ks_idx = [], []
+                for j in range(L):
+                    if j == curve_idx[0]:
+                        continue
+                    dd = bytearray(base)
+                    dd[j] = 1
+                    ks, _, _, fl = prs(dd)
+                    if fl == 1:
+                        flag_idx.append(j)
+                    if ks:
+                        ks_idx.append((j, _log2_exact(ks)))
+                if len(flag_idx) != 1 or not ks_idx or any(s == BAD for _, s in ks_idx):
+                    return None
+
+                def with_ks(ks):
+                    dd = bytearray(base)
+                    for j, s in ks_idx:
+                        dd[j] = (ks >> s) & 0xFF
+                    return dd
+                p_cs, p_off = {}, set()
+                for ks in list(range(0, 1100)) + [4095, 4096, 65535 // 32]:
+                    dd = with_ks(ks)
+                    if sum(dd[j] << s for j, s in ks_idx) != ks:
+                        continue
+                    tail = len(dd) - L
+                    dd[L:] = b"\xFF" * tail
+                    k2, x, y, _ = prs(dd)
+                    if k2 != ks:
+                        return None
+                    p_cs[ks] = (x.bit_length() + 7) // 8
+                    if p_cs[ks] * 2 <= tail and y != x:
+                        return None
+                    if p_cs[ks]:
+                        for off in range(max(L - 4, 0), L + 8):
+                            if off in (curve_idx[0], flag_idx[0]) or off in [j for j, _ in ks_idx]:
+                                continue
+                            d2 = with_ks(ks)
+                            d2[off] = 1
+                            if prs(d2)[1]:
+                                p_off.add(off)
+                                break
+                pfit = [(a, dv) for dv in (8,) for a in range(dv) if all(v == (ks + a) // dv for ks, v in p_cs.items() if (ks + 7) // 8 * 2 <= 300)]
+                if not pfit or len(p_off) != 1:
+                    return None
+                return {"parse_flag_idx": flag_idx[0], "parse_curve_idx": curve_idx[0], "parse_bits_idx": sorted(ks_idx),
+                        "parse_coord_off": p_off.pop(), "parse_coord_add": pfit[0][0], "parse_coord_div": pfit[0][1]}
+            except Exception:  # noqa: BLE001
+                return None
+        pp = parse_part() or {"parse_flag_idx": BAD, "parse_curve_idx": BAD, "parse_bits_idx": [], "parse_coord_off": BAD,
+                              "parse_coord_add": BAD, "parse_coord_div": BAD}
+        return dict({"export_fields": fields, "coord_add": add, "coord_div": div, "len_extra": 8, "curve_ranges": ranges}, **pp)
     except Exception:  # noqa: BLE001
         return None
 
